@@ -145,7 +145,8 @@ pub fn instantiate(sk: &Skeleton, key: &str, mode: &Mode) -> Vec<Line> {
         let k = i as i64;
         let (q, p, f) = match kind {
             Kind::Buy | Kind::Sell => (
-                mk(mode.q, "q", Decimal::from(10 + 3 * k), true),
+                // concrete defaults keep ledgers covered: purchases of 100+, sales of 10+
+                mk(mode.q, "q", Decimal::from(if kind == Kind::Buy { 100 + 3 * k } else { 10 + 3 * k }), true),
                 mk(mode.p, "p", Decimal::from(2 + k), false),
                 mk(mode.f, "f", Decimal::from(1 + (k % 3)), false),
             ),
